@@ -157,6 +157,8 @@ type verifK32Native struct {
 	allow      [8]bool
 	topCtx     bool
 	checkCalls int
+	hasOther   bool // some item carries its own context {k: other}
+	flipOther  bool // ... under which the native decision is the opposite one
 }
 
 // answer: (allowed, failed) for a mapped tuple; also validates the context the mapped request carries.
@@ -175,9 +177,14 @@ func (n *verifK32Native) answer(tk *openfgav1.CheckRequestTupleKey, c *structpb.
 	if u == 0 && r == 1 && o == 1 {
 		wantK = "item"
 	}
-	vt.Assert(f["k"].GetStringValue() == wantK, "context of the evaluation is not item context, else top-level context")
+	other := n.hasOther && u == 0 && r == 0 && o == 0 && f["k"].GetStringValue() == "other"
+	vt.Assert(other || f["k"].GetStringValue() == wantK, "context of the evaluation is not item context, else top-level context")
 	if r < 0 || u < 0 || o < 0 {
 		return false, true
+	}
+	if other {
+		// the decision of the native Check depends on the context it is given (think of a condition on k)
+		return n.allow[0] != n.flipOther, false
 	}
 	return n.allow[u*4+r*2+o], false
 }
@@ -204,6 +211,10 @@ func verifK32Item(kind int) (*authzenv1.EvaluationsItemRequest, int, int, int) {
 			Resource: &authzenv1.Resource{Type: "doc", Id: "2"}, Action: &authzenv1.Action{Name: "editor"},
 			Context: verifK32Props(true, map[string]string{"k": "item"}),
 		}, 0, 1, 1
+	case 6:
+		// same subject / action / resource as the request, but its own context: differs from an inheriting item in
+		// nothing but the context
+		return &authzenv1.EvaluationsItemRequest{Context: verifK32Props(true, map[string]string{"k": "other"})}, 0, 0, 0
 	}
 	return &authzenv1.EvaluationsItemRequest{}, 0, 0, 0
 }
@@ -213,6 +224,7 @@ func VerifK32bEvaluations() {
 	n := vt.Choose("n", N+1)        // 0 = "behaves like a single evaluation"
 	sem := vt.Choose("semantic", 4) // 0 no options, 1 execute_all, 2 deny_on_first_deny, 3 permit_on_first_permit
 	nat := &verifK32Native{topCtx: vt.ForkBool("topContext")}
+	nat.flipOther = vt.Symbolic() && vt.Bool("flipOther") // natively the model has no condition: same decision
 	for k := 0; k < 8; k++ {
 		nat.allow[k] = vt.Bool("allow" + string(rune('0'+k)))
 	}
@@ -228,7 +240,10 @@ func VerifK32bEvaluations() {
 		req.Context = verifK32Props(true, map[string]string{"k": "top"})
 	}
 	for i := 0; i < n; i++ {
-		kinds[i] = vt.Choose("kind"+string(rune('0'+i)), 6)
+		kinds[i] = vt.Choose("kind"+string(rune('0'+i)), 7)
+		if kinds[i] == 6 {
+			nat.hasOther = true
+		}
 		var it *authzenv1.EvaluationsItemRequest
 		it, us[i], rs[i], os[i] = verifK32Item(kinds[i])
 		req.Evaluations = append(req.Evaluations, it)
@@ -320,6 +335,9 @@ func VerifK32bEvaluations() {
 	dec := func(i int) (allowed, failed bool) {
 		if rs[i] < 0 {
 			return false, true
+		}
+		if kinds[i] == 6 {
+			return nat.allow[0] != nat.flipOther, false
 		}
 		return nat.allow[us[i]*4+rs[i]*2+os[i]], false
 	}
